@@ -458,9 +458,39 @@ func c15Pkg(r *ev.Run, pc *C15Pkg) error {
 			paths = append(paths, op.Path, strings.NewReplacer("{", "", "}", "").Replace(op.Path))
 		}
 	}
+	// RawPath spellings: a prefix that is plain, needlessly escaped (unreserved byte, lower-case hex: both
+	// leave the normaliser's scan-only path) or has escaped separators, times a tail that is a complete,
+	// truncated or non-hexadecimal escape at the end of the string or in front of more text
+	escFirst := func(p string, lower bool) string {
+		for i := 0; i < len(p); i++ {
+			if c := p[i]; c >= 'a' && c <= 'z' || c >= 'A' && c <= 'Z' {
+				e := fmt.Sprintf("%%%02X", c)
+				if lower {
+					e = strings.ToLower(e)
+				}
+				return p[:i] + e + p[i+1:]
+			}
+		}
+		return p + "%7e"
+	}
+	tails := []string{"", "%", "%4", "%a", "%F", "%zz", "%4z", "%z4", "%%", "%41%", "%41%4", "%4/ab", "%/ab", "%C3", "%c3%a", "%2f%3", "%2F%3", "%00", "\x00", "%2", "%2f", "%2F"}
 	for _, p := range paths {
-		for _, raw := range []string{"", "/%", "/%41%", p + "%", p + "%zz", strings.ReplaceAll(p, "/", "%2f")} {
-			for _, m := range []string{"GET", "POST", "", "get", "PÖST"} {
+		var raws []string
+		for _, pre := range []string{p, escFirst(p, false), escFirst(p, true), strings.ReplaceAll(p, "/", "%2f"), "/" + strings.ReplaceAll(strings.TrimPrefix(p, "/"), "/", "%2F")} {
+			for _, tl := range tails {
+				raws = append(raws, pre+tl)
+			}
+		}
+		raws = append(raws, "/%", "/%41%")
+		for ri, raw := range raws {
+			if raw == p {
+				raw = ""
+			}
+			methods := []string{"GET", "POST", "", "get", "PÖST"}
+			if ri%5 != 0 {
+				methods = methods[ri%2 : ri%2+1] // every method for a fifth of the spellings, GET or POST for the rest
+			}
+			for _, m := range methods {
 				var body io.ReadCloser
 				if rng.Bool() {
 					body = io.NopCloser(strings.NewReader("{}"))
